@@ -63,7 +63,7 @@ func cmdSig(args []string) {
 		}
 		// the custom function lives next to the converter or in x1/ext / x2/ext
 		q, xi := "", -1
-		if s.Use == "extend" && pkgOf[i] == "p" && s.Place != "local" && s.Place != "regex" && s.Place != "" {
+		if s.Use == "extend" && pkgOf[i] == "p" && s.Place != "local" && s.Place != "regex" && s.Place != "typename" && s.Place != "" {
 			q, xi = "p.", int(s.Place[1]-'1')
 		}
 		var ps []string
@@ -137,6 +137,8 @@ func cmdSig(args []string) {
 				fdoc = strings.Replace(fdoc, cl, "//\tgoverter:context ctx  \n", 1)
 			case "prose":
 				fdoc = strings.Replace(fdoc, cl, "// see goverter:context ctx\n", 1)
+			case "tabsep":
+				fdoc = strings.Replace(fdoc, cl, "// goverter:context\tctx\n", 1)
 			case "detached":
 				fdoc = strings.Replace(fdoc, cl, cl+"\n", 1)
 			case "trailing":
@@ -151,7 +153,12 @@ func cmdSig(args []string) {
 				fsrc, ext = &srcX[xi], fmt.Sprintf("%s/x%d/ext:F%d", b.Mod, xi+1, i)
 				usedX[xi] = true
 			}
-			fmt.Fprintf(fsrc, "\n%sfunc F%d(%s)%s { %s }"+trail+"\n\n// goverter:context source\n// goverter:context other\nfunc G%d(v int, source %sX, other %sY) string { return \"\" }\n", fdoc, i, strings.Join(ps, ", "), res, body, i, q, q)
+			if s.Place == "typename" {
+				// a declared func type of this name instead of a function
+				fmt.Fprintf(fsrc, "\n%stype F%d func(%s)%s\n\n// goverter:context source\n// goverter:context other\nfunc G%d(v int, source %sX, other %sY) string { return \"\" }\n", fdoc, i, strings.Join(ps, ", "), res, i, q, q)
+			} else {
+				fmt.Fprintf(fsrc, "\n%sfunc F%d(%s)%s { %s }"+trail+"\n\n// goverter:context source\n// goverter:context other\nfunc G%d(v int, source %sX, other %sY) string { return \"\" }\n", fdoc, i, strings.Join(ps, ", "), res, body, i, q, q)
+			}
 			fmt.Fprintf(src, "\n// goverter:converter\n// goverter:extend %s\n// goverter:output:file ../gen/c%d.go\n// goverter:output:package %s/gen\ntype C%d interface {\n\t// goverter:context ctx\n\tConv(source S, ctx X) (T, error)\n}\n", ext, i, b.Mod, i)
 			lines[i] = map[string]any{"ins": []any{}, "lit": true, "calls": []call{}}
 			wants[i] = []int{}
